@@ -249,6 +249,23 @@ def run_case(case, tier):
         p.logger.setLevel(logging.CRITICAL)
         for h in list(p.logger.handlers):
             p.logger.removeHandler(h)
+        if inj is None and case.get("n", 0) % 4 == 0:
+            # the same Parser object has just refused a conflicting version of this closure (another directory): what is
+            # left behind must not turn into a conflict of the clean version, nor hide one file from being read
+            bad = inject(prog, rng.choice(["msg_msg", "module_id", "host_id", "name:constants:message_defs", "name:aliases:struct_defs"]),
+                         rng, "any", 0, "last")
+            if bad is not None:
+                broot = G.write_closure(dict(prog, files=bad["files"]), work / "refused_version")
+                try:
+                    p.parse(broot)
+                except BaseException:
+                    C["parser_objects_reused_after_refusal"] = C.get("parser_objects_reused_after_refusal", 0) + 1
+                else:
+                    p = Parser(import_coredefs=not case.get("nocore"))
+                    p.logger.setLevel(logging.CRITICAL)
+                    for h in list(p.logger.handlers):
+                        p.logger.removeHandler(h)
+                _COUNTER["calls"].clear()
         err = None
         try:
             p.parse(root)
